@@ -73,7 +73,9 @@ func checkC02(p *Prog, r *Report) {
 		return n > 0
 	}
 	emissions := 0
-	for _, fn := range append([]*ssa.Function{hs}, hs.AnonFuncs...) {
+	g := p.ModGraph()
+	hsUnit := g.unitFuncs(hs) // hashSearch, its closures and the sender functions it is split into
+	for _, fn := range hsUnit {
 		allCalls(fn, func(c ssa.CallInstruction) {
 			if c.Common().StaticCallee() != matched {
 				return
@@ -145,6 +147,15 @@ func checkC02(p *Prog, r *Report) {
 		"(*rsync/internal/receiver.Transfer).receiveData": true,
 	}
 	sumCallers := map[string]bool{}
+	inHsUnit, genUnit := map[*ssa.Function]bool{}, map[*ssa.Function]bool{}
+	for _, fn := range hsUnit {
+		inHsUnit[fn] = true
+	}
+	if gen := p.Func(pkgReceiver, "Transfer", "generateAndSendSums"); gen != nil {
+		for _, fn := range g.unitFuncs(gen) {
+			genUnit[fn] = true
+		}
+	}
 	for _, fn := range p.ModFuncs {
 		if isTestSupport(pkgPathOfFunc(fn)) {
 			continue
@@ -156,18 +167,17 @@ func checkC02(p *Prog, r *Report) {
 			case fnMD4New:
 				r.Cond(md4Allowed[funcKey(fn)], "C02/ONE-DEFINITION", funcKey(fn)+" → md4.New", pos, "a second strong-checksum definition outside rsyncchecksum / the whole-file hash sites")
 			case pkgChecksum + ".Checksum1", pkgChecksum + ".Checksum2":
-				root := fn
-				for root.Parent() != nil {
-					root = root.Parent()
-				}
+				root := ""
 				ok := false
-				switch funcKey(root) {
-				case "(*rsync/internal/receiver.Transfer).generateAndSendSums":
+				switch {
+				case genUnit[fn]:
+					root = "(*rsync/internal/receiver.Transfer).generateAndSendSums"
 					ok = n == pkgChecksum+".Checksum1" || isFieldLoad(c.Common().Args[0], seedR)
-				case "(*rsync/internal/sender.Transfer).hashSearch":
+				case inHsUnit[fn]:
+					root = "(*rsync/internal/sender.Transfer).hashSearch"
 					ok = n == pkgChecksum+".Checksum1" || isFieldLoad(c.Common().Args[0], seedS)
 				}
-				sumCallers[funcKey(root)+"/"+n[len(pkgChecksum)+1:]] = true
+				sumCallers[root+"/"+n[len(pkgChecksum)+1:]] = true
 				r.Cond(ok, "C02/ONE-DEFINITION", funcKey(fn)+" → "+n[len(pkgChecksum)+1:], pos, "block checksum must be computed by generator/sender with their Transfer.Seed")
 			}
 		})
@@ -179,7 +189,24 @@ func checkC02(p *Prog, r *Report) {
 		}
 	}
 	nSE := 0
-	for _, fn := range append([]*ssa.Function{hs}, hs.AnonFuncs...) {
+	// the rolling-checksum code: hashSearch, its closures, and any function of its unit
+	// that widens through SignExtend
+	rolling := append([]*ssa.Function{hs}, hs.AnonFuncs...)
+	for _, fn := range hsUnit {
+		if fn == hs || fn.Parent() == hs {
+			continue
+		}
+		uses := false
+		allCalls(fn, func(c ssa.CallInstruction) {
+			if calleeName(c) == pkgChecksum+".SignExtend" {
+				uses = true
+			}
+		})
+		if uses {
+			rolling = append(rolling, fn)
+		}
+	}
+	for _, fn := range rolling {
 		for _, b := range fn.Blocks {
 			for _, in := range b.Instrs {
 				if cv, ok := in.(*ssa.Convert); ok {
